@@ -145,8 +145,15 @@ func (ex *exampleValidator) validateExampleValueValidAgainstSchema() *Result {
 	if s.spec.Spec().Definitions != nil { // Safeguard
 		// reset explored schemas to get depth-first recursive-proof exploration
 		ex.resetVisited()
-		for nm, sch := range s.spec.Spec().Definitions {
-			res.Merge(ex.validateExampleValueSchemaAgainstSchema("definitions."+nm, "body", &sch)) //#nosec
+		for nm, def := range s.spec.Spec().Definitions {
+			// validation lazily expands the $ref of sub-schemas in place: walk a private copy of the definition, not the caller's parsed document
+			sch, err := deepCloneSchema(def)
+			if err != nil {
+				res.AddErrors(fmt.Errorf("definitions.%s: cannot clone schema: %w", nm, err))
+
+				continue
+			}
+			res.Merge(ex.validateExampleValueSchemaAgainstSchema("definitions."+nm, "body", &sch))
 		}
 	}
 	return res
